@@ -49,7 +49,7 @@ func Load(repo string, extDirs []string) (*Gen, error) {
 			return nil, fmt.Errorf("package %s: %v", p.PkgPath, p.Errors[0])
 		}
 	}
-	prog, spkgs := ssautil.AllPackages(pkgs, ssa.InstantiateGenerics)
+	prog, spkgs := ssautil.AllPackages(pkgs, ssa.InstantiateGenerics|ssa.GlobalDebug)
 	prog.Build()
 	g := &Gen{Prog: prog, Pkgs: pkgs, SSAPkgs: map[string]*ssa.Package{}, CS: NewContractSet(), RepoDir: repo,
 		internal: map[string]bool{}, pkgByName: map[string]*types.Package{}, pkgByPath: map[string]*types.Package{},
@@ -245,7 +245,7 @@ func (g *Gen) generate1(fn *ssa.Function, con *Contract, heapOrder []string, hea
 	res = &FuncResult{Func: g.fnName(fn), Contract: con}
 	fc := &fnCtx{g: g, fn: fn, con: con, sc: NewScript(), heapSort: map[string]string{}, vals: map[ssa.Value]Val{},
 		ordinals: map[string]int{}, globals: map[string]string{}, implSyms: map[string]types.Type{}, pureDone: map[string]bool{},
-		globalVals: map[*ssa.Global]Val{}, globalSyms: map[string]*ssa.Global{}}
+		globalVals: map[*ssa.Global]Val{}, globalSyms: map[string]*ssa.Global{}, locals: map[string]Val{}}
 	fc.sc.Raw(prelude, preludeSyms...)
 	fc.so = newSorter(fc.sc)
 	for _, h := range heapOrder {
@@ -326,6 +326,11 @@ func BatchQuery(obls []*Obligation) string {
 }
 
 func (fc *fnCtx) heapByShortName(short string) string {
+	for _, h := range fc.heapOrder {
+		if trimBars(h) == short {
+			return h
+		}
+	}
 	for _, h := range fc.heapOrder {
 		if strings.Contains(h, short) {
 			return h
